@@ -41,6 +41,9 @@ func spoil(c *Chooser, r *RPCPlan, kind string) {
 		r.Client.WriterFailAfter = c.Range(1, 20)
 	case "backend-garbage":
 		genBackendMisbehaviour(c, &r.Backend.Resp)
+	case "lib-fault":
+		// a codec or (de)compressor call fails in the middle of this RPC (allocation failure, codec bug, poisoned dictionary ...)
+		r.LibFaults = []Fault{{Kind: Pick(c, "marshal", "unmarshal", "comp.write", "comp.close", "decomp.reset", "decomp.read", "decomp.close"), At: c.Range(1, 3)}}
 	case "end-garbage":
 		// the end of the stream (trailer frame, end-of-stream message) is where the adapters give buffers back
 		applyBackendMisbehaviour(c, &r.Backend.Resp, Pick(c, "end-garbage", "end-garbage", "flag-any", "omit-end"))
@@ -59,7 +62,7 @@ func spoil(c *Chooser, r *RPCPlan, kind string) {
 	}
 }
 
-var spoilKinds = []string{"cut", "bad-validation", "corrupt-compressed", "over-limit", "backend-panic", "client-gone", "backend-garbage", "end-garbage", "undecodable", "corrupt-response"}
+var spoilKinds = []string{"cut", "bad-validation", "corrupt-compressed", "over-limit", "backend-panic", "client-gone", "backend-garbage", "end-garbage", "undecodable", "corrupt-response", "lib-fault"}
 
 // probeView is what is compared between the used and the fresh transcoder.
 func probeView(st *rpcState) string {
@@ -134,6 +137,8 @@ func c15Oracle(p *Plan) *Verdict {
 
 func (r *RPCPlan) histKind() string {
 	switch {
+	case len(r.LibFaults) > 0:
+		return "lib-fault"
 	case len(r.Client.Faults) > 0:
 		return "cut"
 	case r.Client.Timeout == "zz":
@@ -169,7 +174,7 @@ func init() {
 		ID:    "C15",
 		Level: "exploration",
 		Rule: "one Transcoder (the stream-shape service, in a third of the worlds also the REST-bound parameter service) and one set of pools; a drawn history of 0..20 earlier RPCs run to completion one after another (valid, failed validation, body cut mid-message, over the limit, corrupt compressed request, undecodable request, " +
-			"corrupt compressed response, protocol-breaking backend, backend panic, client gone mid-response) followed by a probe RPC; the same probe runs on a freshly built Transcoder. Pool policies are adversarial (most-recently-released first, " +
+			"corrupt compressed response, protocol-breaking backend, backend panic, client gone mid-response, a failing codec or (de)compressor call) followed by a probe RPC; the same probe runs on a freshly built Transcoder. Pool policies are adversarial (most-recently-released first, " +
 			"random, fifo; released buffers keep poison as their stale content in most runs so that a missing reset hands recognisable garbage to the next user). oracle: canonical probe outcome and backend view are equal; no pool or compressor misuse. " +
 			"distinct = (history length, probe form>target/path, pool policy, schedule hash); non-trivial = the history is not empty",
 		Gen: func(c *Chooser, tier string) *Plan {
